@@ -57,6 +57,53 @@ def tiny_models():
     return out
 
 
+def huge_models():
+    """Products of in-range constants whose value leaves the i64 range: the coefficient (and the range
+    derived from it) prints as a long digit string."""
+    V = lambda n: {"op": "var", "name": n}
+    F = lambda f: {"op": "num", "n": 0, "d": 1, "f": f}
+    B = lambda n: {"inf": 0, "n": n, "d": 1}
+    out = []
+    for i, (a, b) in enumerate([(1e10, 1e10), (3e9, 4e9), (-1e10, 1e10), (2.0 ** 40, 2.0 ** 30), (1e9, 1e9)]):
+        prod = {"op": "mul", "a": F(a), "b": {"op": "mul", "a": F(b), "b": V("x")}}
+        out.append({"id": f"huge{i}", "sense": "min", "obj": {"op": "add", "a": V("x"), "b": V("y")},
+                    "cons": [{"lhs": {"op": "add", "a": prod, "b": V("y")}, "cmp": "ge" if a > 0 else "le", "rhs": {"op": "num", "n": 1 if a > 0 else -1, "d": 1}, "assert": False, "name": "u"},
+                             {"lhs": V("y"), "cmp": "le", "rhs": {"op": "mul", "a": F(abs(a)), "b": F(b)}, "assert": False, "name": ""}],
+                    "dom": [{"name": "x", "kind": "real", "lo": B(0), "hi": B(4)}, {"name": "y", "kind": "real", "lo": B(-3), "hi": {"inf": 1, "n": 0, "d": 1}}]})
+    return out
+
+
+def named_negated(cases):
+    """The same models with every constant a named constant of the where section and subtraction /
+    negative scales spelled with a unary minus: the compiled Model then holds a unary minus over a
+    substituted (possibly negative) number; every other one also asserts the literal true."""
+    out = []
+    for i, c in enumerate(cases):
+        m = rewrite.map_case(c, rewrite.negspell)
+        nm = rewrite.Named()
+        body = render.model_text(m, nm)
+        text = render.model_text(m, nm, consts=nm.consts) if nm.consts else body
+        if i % 2 == 0:
+            text = text.replace("s.t.\n", "s.t.\n    tt: true\n", 1)
+        out.append({"id": c["id"] + "n", "text": text})
+    return out
+
+
+def name_programs():
+    """Programs whose compiled variable names carry index fragments that are not plain names or canonical
+    integers: computed indices that go negative or fractional, string indices with padded digits, names of
+    built-in constants, blanks, dashes."""
+    def prog(decl, idx, sets):
+        where = ("\nwhere\n    " + sets) if sets else ""
+        return (f"min sum({idx}) {{ 2 * {decl} }}\ns.t.\n    {decl} >= 1 for {idx}\n    cap: sum({idx}) {{ {decl} }} <= 40{where}"
+                f"\ndefine\n    {decl} as Real(0, 10) for {idx}")
+    out = [prog("x_{i - 1}", "i in 0..3", ""), prog("x_{i / 2}", "i in 0..3", ""), prog("x_{i - 2}_{i}", "i in 1..4", "")]
+    for k, strs in enumerate((["007", "01", "7"], ["PI", "Infinity", "MinusInfinity", "E"], ["a", "10", "b2"], ["a-b", "c"], ["a b"], ["", "z"], ["2x"], ["0", "00"])):
+        out.append(prog("x_s", "s in S", "let S = [" + ", ".join(f'"{t}"' for t in strs) + "]"))
+        out.append(prog("y_s_{i}", "s in S, i in 0..2", "let S = [" + ", ".join(f'"{t}"' for t in strs) + "]"))
+    return out
+
+
 def check(tier, seed, replay=None):
     prop = "C12"
     o = core.Outcome(prop, tier, seed)
@@ -68,8 +115,10 @@ def check(tier, seed, replay=None):
         kcases, meta = lin.gen_all("quick", seed, per_family_quick=(250 if tier == "quick" else 20000))
         cases = kcases + perturbed([c for c in kcases if c.get("fam") in ("A", "C", "D", "F")][::3], seed) + tiny_models()
         # compiled models come from the text front end: every case is rendered to source first
-        cases = [{"id": c["id"], "text": render.model_text(c, rewrite.plain)} for c in cases]
+        cases = [{"id": c["id"], "text": render.model_text(c, rewrite.plain)} for c in cases + huge_models()]
+        cases += named_negated([c for c in kcases if c.get("fam") != "E"][seed % 3::3])
         cases += [{"id": f"prog{i}", "text": p} for i, p in enumerate(fmt.programs())]
+        cases += [{"id": f"name{i}", "text": p} for i, p in enumerate(name_programs())]
         d = core.rundir(prop)
         rp = os.path.join(d, "rand.ndjson")
     events = core.rv_parallel("render", cases, prop, procs=8)
@@ -80,7 +129,7 @@ def check(tier, seed, replay=None):
         ev = byid.get(r[2], {})
         which = "from_model" if "rendered model" in r[3] else "from_lm"
         txt = ev.get("modeltext") if which == "from_model" else ev.get("lmtext")
-        sig = r[3] if r[3].startswith("KNOWN-SHAPE") else f"{r[3]}:{txt}"
+        sig = r[3] if r[3].startswith(("KNOWN-SHAPE", "KNOWN-NAME")) else f"{r[3]}:{txt}"
         o.violation(sig, bycase.get(r[2], {}), f"{r[3]}\n--- text ---\n{txt}\n--- {ev.get(which, {}).get('why', '')[:300]}")
     skipped = {}
     for s in v.skips:
